@@ -7,6 +7,16 @@ every module, state_dict, cost values, summary, two exports, a seeded forward, o
 after a history equals the probe after its TWIN history - the same history with every observer removed (only the
 forwards, and the specification it ends with).  Because states that probe identically are merged, the search closes
 after a few states on a healthy tree; any observer with a side effect opens new states and is reported.
+
+Round 7 alphabet extensions:
+ * SPLIT TRAINING STEP: `step_open` (seeded forward, the output is kept) and `step_close` (loss = task_loss(kept output) + cost,
+   backward, SGD step on the parameter objects captured at construction) are separate letters, so that the observers of a history
+   can sit BETWEEN the forward and the backward pass of one iteration (checkpoint / logging callback inside the iteration).  A history
+   that ends inside an open step is completed (step_close) before it is probed, on model and twin alike, so the state "forward done,
+   backward pending" - whose only carrier is the autograd graph of the kept output and of the sampled coefficients - is observed.
+ * NO-BIAS SPECIFICATIONS: shards whose dictionary specification has `params_no_bias` / `ops_no_bias` as ONE of its two entries and
+   whose "other" specification (assigned through the `cost_specification` setter and switched back) is the other no-bias metric
+   (case key `specs` = nb1 | nb2), on the same fixtures (every Conv / Linear of which has a bias).
 """
 import torch
 
@@ -15,23 +25,43 @@ from .. import history as H
 
 PID = 'C18'
 RULE = ('BFS over all operation sequences up to the depth bound over {export, export(add_bn=False) [PIT], summary, cost | get_cost(a) | get_cost(b), '
-        'cost_specification := other, := original, forward, training step, train()/eval()} on PIT / MPS (per-layer, per-channel) / SuperNet (soft, Gumbel) models with a layer '
+        'cost_specification := other, := original, forward, training step, split training step (step_open = forward, step_close = loss + cost, backward, '
+        'SGD: the observers in between run BETWEEN forward and backward; a history ending inside an open step is closed before probing), train()/eval()}; '
+        'specifications: {a: params, b: ops} / ops [PIT, SuperNet], {a: params_bit, b: ops_bit} / ops_bit [MPS], and the no-bias variants '
+        'nb1 = {a: params_no_bias, b: ops|ops_bit} / other = ops_no_bias, nb2 = {a: params|params_bit, b: ops_no_bias} / other = params_no_bias '
+        '(quick: one nb shard and one step_open shard per (model, mode, full_cost), rotated with the seed; thorough: the get_cost_a / get_cost_b / spec_other / step_open shards of every (model, mode, full_cost) in both '
+        'no-bias variants, and step_open as a letter of the general alphabet) on PIT / MPS (per-layer, per-channel) / SuperNet (soft, Gumbel) models with a layer '
         'used twice, a fixed layer and BatchNorm, in train and eval mode, full_cost off/on; every explored history is executed on a fresh real '
         'model together with its observer-free twin and the two probes are compared; non-trivial = a history containing at least one observer')
 ASSUMPTIONS = ['the harness owns the RNG: it re-seeds before every forward / training step of model and twin, so an observer that merely consumes '
                'random numbers is not reported, only differences in the model\'s own state are',
-               'states with identical probes are merged (the probe contains every observation the property names, incl. a later export and a training step)']
+               'states with identical probes are merged (the probe contains every observation the property names, incl. a later export and a training step); '
+               'a state inside an open training step is never merged with a state outside one',
+               'inside an open training step (between step_open and step_close) the enabled letters are the observers, the specification switches and '
+               'step_close; quick tier: histories are not continued after a step_close (the states after a whole step are explored by the `step` shards)',
+               'MPS: export() inside an open training step is explored too (the first version of this probe found that MPS.export() restored the '
+               'searched model with load_state_dict - an in-place copy into tensors saved for backward - so that the backward of the pending forward '
+               'raised; repaired in /repo as D50)']
 
 
 def bounds(tier):
     return {'quick': {'depth': 3}, 'thorough': {'depth': 5}}[tier]
 
 
-def _specs(method):
-    from plinio.cost import params, ops, params_bit, ops_bit
-    if method == 'mps':
-        return {'a': params_bit, 'b': ops_bit}, ops_bit
-    return {'a': params, 'b': ops}, ops
+def _specs(method, variant='std'):
+    from plinio.cost import params, ops, params_bit, ops_bit, params_no_bias, ops_no_bias
+    a, b = (params_bit, ops_bit) if method == 'mps' else (params, ops)
+    if variant == 'nb1':      # a no-bias metric as ONE entry of the dictionary; the other no-bias metric assigned through the setter
+        return {'a': params_no_bias, 'b': b}, ops_no_bias
+    if variant == 'nb2':
+        return {'a': a, 'b': ops_no_bias}, params_no_bias
+    assert variant == 'std', variant
+    return {'a': a, 'b': b}, b
+
+
+# quick tier: ONE no-bias shard per (model, mode, full_cost), rotated over (variant, first letter) with the enumeration index and the seed
+NB_ROTATION = [('nb1', 'get_cost_a'), ('nb2', 'spec_other'), ('nb2', 'get_cost_b'), ('nb1', 'spec_other')]
+NON_OBSERVERS = ('forward', 'step', 'to_train', 'to_eval', 'step_open', 'step_close')
 
 
 MODELS = [('pit', 'pit1d', {}), ('pit', 'pit2d', {}), ('pit', 'pit1d_frozen', {'discrete_cost': True}), ('pit', 'pit1d_catin', {}),
@@ -43,6 +73,7 @@ MODELS = [('pit', 'pit1d', {}), ('pit', 'pit2d', {}), ('pit', 'pit1d_frozen', {'
 
 def cases(tier, seed):
     out = []
+    combo = 0
     for method, name, kw in MODELS:
         if tier == 'quick' and (name in ('pit1d_frozen', 'sn_twice') or kw.get('gumbel_softmax')):
             continue      # thorough only
@@ -51,8 +82,22 @@ def cases(tier, seed):
                 if tier == 'quick' and full and (name in ('pit2d', 'pit1d_frozen', 'pit1d_catin', 'mps_b', 'sn_twice') or kw.get('disable_sampling')):
                     continue
                 # the BFS is sharded by its first letter (pool parallelism only; closure is then per shard, which is sound but redundant)
+                base = {'method': method, 'model': name, 'kw': kw, 'train': train, 'full_cost': full, 'tier': tier}
                 for first in _first_letters(method, kw) + [None]:
-                    out.append({'method': method, 'model': name, 'kw': kw, 'train': train, 'full_cost': full, 'tier': tier, 'first': first})
+                    out.append(dict(base, first=first))
+                # round 7: the split training step (observers between forward and backward) ...
+                out.append(dict(base, first='step_open'))
+                # ... and the no-bias specifications
+                if tier == 'quick':
+                    variant, first = NB_ROTATION[(combo + seed) % len(NB_ROTATION)]
+                    out.append(dict(base, first=first, specs=variant))
+                else:
+                    for variant in ('nb1', 'nb2'):
+                        # the shards whose first letter reads a cost / switches the specification / opens a step (the other
+                        # letters follow at depth >= 2 inside these shards)
+                        for first in ('get_cost_a', 'get_cost_b', 'spec_other', 'step_open'):
+                            out.append(dict(base, first=first, specs=variant))
+                combo += 1
     return out
 
 
@@ -67,7 +112,7 @@ def _first_letters(method, kw):
 
 def _make(case, seed):
     method = case['method']
-    dspec, other = _specs(method)
+    dspec, other = _specs(method, case.get('specs', 'std'))
     kw = dict(case['kw'])
     if kw.pop('per_channel', False):
         from plinio.methods.mps import MPSType
@@ -111,6 +156,25 @@ def _apply(nas, x, op, st, dspec, other):
         loss.backward()
         with torch.no_grad():
             for p in params:
+                if p.grad is not None:
+                    p -= 0.01 * p.grad
+    elif op == 'step_open':
+        # first half of a training step: seeded forward, the output (and its autograd graph) is kept
+        st['nfwd'] += 1
+        torch.manual_seed(1991 + st['nfwd'])
+        for p in st['params']:
+            p.grad = None
+        st['pending'] = nas(x)
+    elif op == 'step_close':
+        # second half: the loss is built from the KEPT output and a cost read now (no forward in between), backward, SGD step
+        y = st.pop('pending')
+        if st['spec'] == 'orig':
+            loss = torch.tanh(y).sum() + 1e-3 * (nas.get_cost('a') + nas.get_cost('b'))
+        else:
+            loss = torch.tanh(y).sum() + 1e-3 * nas.cost
+        loss.backward()
+        with torch.no_grad():
+            for p in st['params']:
                 if p.grad is not None:
                     p -= 0.01 * p.grad
     elif op == 'spec_other':
@@ -186,6 +250,10 @@ def _run_history(case, seed, hist):
         st = {'nfwd': 0, 'spec': 'orig', 'params': [p for p in nas.parameters() if p.requires_grad]}
         for op in hist:
             _apply(nas, x, op, st, dspec, other)
+        if 'pending' in st:
+            # the history ends inside an open training step: complete it (the observers of the history then sat between its forward and
+            # its backward pass); the probes below see the parameters after that step
+            _apply(nas, x, 'step_close', st, dspec, other)
         if which == 'A':
             o = _probe_continue(nas, x, st)
         else:
@@ -229,13 +297,31 @@ def _mode(hist, train):
     return train
 
 
+def _pending(hist):
+    p = False
+    for op in hist:
+        if op == 'step_open':
+            p = True
+        elif op == 'step_close':
+            p = False
+    return p
+
+
+def _proto(variant, hist):
+    """signature suffix naming the round-7 protocol that a history used: a no-bias specification variant; the last letter ran inside an open
+    training step (between the forward and the backward pass); the history contains a split step.  Empty for the original alphabet."""
+    in_step = bool(hist) and _pending(hist[:-1]) and hist[-1] != 'step_close'
+    return ('' if variant == 'std' else f'/spec={variant}') + \
+        ('/between-forward-and-backward' if in_step else '/history-with-split-step' if 'step_open' in hist else '')
+
+
 def _twin(hist):
     # non-observers are kept, in order; the specification in force matters for 'step', so its switches are kept as well
     # but collapsed (a switch to the specification already in force in the twin is dropped)
     t = []
     spec = 'orig'
     for op in hist:
-        if op in ('forward', 'to_train', 'to_eval', 'step'):
+        if op in ('forward', 'to_train', 'to_eval', 'step', 'step_open', 'step_close'):
             t.append(op)
         elif op == 'spec_other' and spec != 'other':
             spec = 'other'
@@ -250,7 +336,7 @@ def _twin(hist):
         for i, op in enumerate(t):
             if op in ('spec_other', 'spec_orig'):
                 j = i + 1
-                while j < len(t) and t[j] in ('forward', 'to_train', 'to_eval'):
+                while j < len(t) and t[j] in ('forward', 'to_train', 'to_eval', 'step_open'):
                     j += 1
                 if j < len(t) and t[j] in ('spec_other', 'spec_orig'):
                     del t[j]
@@ -270,6 +356,8 @@ def run_case(case, seed):
     evals = [0]
 
     first = case.get('first', 'ALL')
+    variant = case.get('specs', 'std')
+    vtag = '' if variant == 'std' else f'spec={variant}/'
 
     def alphabet(hist):
         if not hist and first != 'ALL':
@@ -282,13 +370,26 @@ def run_case(case, seed):
                 spec = 'other'
             elif op == 'spec_orig':
                 spec = 'orig'
+        cost_letters = ['get_cost_a', 'get_cost_b', 'spec_other'] if spec == 'orig' else ['cost', 'spec_orig']
+        if _pending(hist):
+            # inside an open training step: observers, specification switches, and the second half of the step
+            ops = ['summary', 'step_close']
+            if not case['kw'].get('per_channel'):
+                ops.insert(0, 'export')      # (MPS included since the repair of D50: export() no longer writes in place into tensors saved for backward)
+            if method == 'pit':
+                ops.append('export_nobn')
+            return ops + cost_letters
+        if tier == 'quick' and 'step_close' in hist:
+            return []                        # quick: the states after a whole step are explored by the `step` shards
         ops = ['export', 'summary', 'forward', 'step', 'to_eval' if _mode(hist, case['train']) else 'to_train']
         if case['kw'].get('per_channel'):
             ops.remove('export')     # per-channel MPS export is documented as unsupported (README; C02 is per-layer only)
         if method == 'pit':
             ops.append('export_nobn')
+        if tier == 'thorough':
+            ops.append('step_open')
         # the two metrics are separate letters: "in any order" includes which metric is queried first
-        ops += ['get_cost_a', 'get_cost_b', 'spec_other'] if spec == 'orig' else ['cost', 'spec_orig']
+        ops += cost_letters
         return ops
 
     def run(hist):
@@ -299,7 +400,7 @@ def run_case(case, seed):
             import traceback
             tb = traceback.format_exc()[-500:]
             return {'key': ('raise', type(e).__name__, hist[-1] if hist else ''), 'outcome': 'raises',
-                    'violations': [{'kind': 'operation-raises', 'sig': f'operation-raises/{method}/{hist[-1] if hist else "init"}',
+                    'violations': [{'kind': 'operation-raises', 'sig': f'operation-raises/{method}/{hist[-1] if hist else "init"}' + _proto(variant, hist),
                                     'msg': f'history {list(hist)}: {type(e).__name__}: {str(e)[:200]} {tb}',
                                     'case': dict(base_case, history=list(hist))}]}
         tw = _twin(hist)
@@ -307,14 +408,16 @@ def run_case(case, seed):
             twin_cache[tw] = _run_history(case, seed, tw)[0]
         ref = twin_cache[tw]
         evals[0] += 1
-        if any(op not in ('forward', 'step', 'to_train', 'to_eval') for op in hist):
-            nontrivial.add(f"{case['method']}/{case['model']}/{case['train']}/{case['full_cost']}/{'.'.join(hist)}")
+        if any(op not in NON_OBSERVERS for op in hist):
+            nontrivial.add(f"{case['method']}/{case['model']}/{case['train']}/{case['full_cost']}/{vtag}{'.'.join(hist)}")
         diffs = [k for k in obs if obs[k] != ref[k]]
         # which observer is to blame: the last op of the history (shorter histories were checked before)
         if diffs:
             last = hist[-1]
             mode = 'train' if _mode(hist, case['train']) else 'eval'
-            viol.append({'kind': 'observer-changed-model', 'sig': f'observer-changed-model/{method}/{last}/{mode}/' + '+'.join(sorted(diffs)),
+            # the protocol that exposed it is part of the signature: a no-bias specification variant, an observer that ran inside an
+            # open training step (between the forward and the backward pass)
+            viol.append({'kind': 'observer-changed-model', 'sig': f'observer-changed-model/{method}/{last}/{mode}/' + '+'.join(sorted(diffs)) + _proto(variant, hist),
                          'msg': f'{case["model"]} ({mode}, full_cost={case["full_cost"]}): after history {list(hist)} the probe differs from the '
                                 f'observer-free twin {list(tw)} in {diffs}: ' +
                                 '; '.join(f'{k}: {str(obs[k])[:80]} vs {str(ref[k])[:80]}' for k in diffs[:3]),
@@ -328,7 +431,7 @@ def run_case(case, seed):
             viol.append({'kind': 'observers-change-training-mode', 'sig': f'observers-change-training-mode/{method}/{mode}',
                          'msg': f'{case["model"]} ({mode}): after history {list(hist)}, reading cost/summary/export() changed the training flags of the model',
                          'case': dict(base_case, history=list(hist))})
-        key = (tuple(sorted((k, str(v)) for k, v in obs.items())), st['spec'])
+        key = (tuple(sorted((k, str(v)) for k, v in obs.items())), st['spec'], _pending(hist))
         return {'key': key, 'violations': viol, 'outcome': 'differs' if viol else 'same-as-twin'}
 
     only = tuple(case['history']) if case.get('history') is not None else None
